@@ -22,4 +22,13 @@ cd /verif
 res=$(tools/mutant.sh $src/patch.diff $pid quick 2>&1); echo "$res" | tail -5
 rc=$(echo "$res" | sed -n 's/^MUTANT .* exit=\([0-9]*\)$/\1/p')
 mkdir -p seeded/$name; cp $src/patch.diff seeded/$name/patch.diff; cp $src/demo.py seeded/$name/demo.py; cp $src/README.md seeded/$name/README.md
+/venv/bin/python - "$name" "$pid" "$rc_clean" "$rc_patched" "$newf" "$rc" "${NEEDS:-see README.md}" "$(echo "$res" | grep -E '^violation' | head -3 | cut -c1-300)" <<'PY'
+import json, sys
+name, pid, c, p, newf, rc, needs, viol = sys.argv[1:9]
+json.dump({'breaks_property': pid, 'needs_to_manifest': needs, 'origin': 'independent sub-agent given only the property text and a scratch worktree',
+  'confirmed': {'demo_exit_unchanged_tree': int(c), 'demo_exit_with_patch': int(p), 'new_failures_in_existing_suite_with_patch': newf,
+                'how': 'tools/seeded_eval.sh: demo.py on clean and patched scratch worktree; full pytest suite with patch compared with the unchanged tree\'s failure list; quick check run against a patched scratch copy (tools/mutant.sh)'},
+  'check_exit_with_patch': int(rc) if rc.isdigit() else rc, 'detected': rc == '1', 'first_violations': viol.splitlines()},
+  open('seeded/%s/meta.json' % name, 'w'), indent=1)
+PY
 echo "RESULT name=$name property=$pid demo_clean=$rc_clean demo_patched=$rc_patched new_test_failures=$newf check_exit=$rc"
